@@ -99,6 +99,8 @@ class Engine(OpsMixin, ExprMixin, CallMixin, StmtMixin, BuiltinsMixin):
         self.subscript_models = {}
         self.coerce_hooks = {}
         self.binder_depth = 0
+        self._bcount = 0
+        self._in_binder_expr = False
         self.isinstance_hooks = {}
         self.data_defaults = {}
         self.special_forms = dict(SPECIAL_FORMS)
@@ -182,6 +184,10 @@ class Engine(OpsMixin, ExprMixin, CallMixin, StmtMixin, BuiltinsMixin):
                 if isinstance(obj, property):
                     obj = obj.fget
             if ok:
+                if hasattr(obj, "callback") and not inspect.isfunction(obj):   # click.Command -> its callback
+                    obj = obj.callback
+                while hasattr(obj, "__wrapped__"):                              # click.pass_obj & co.
+                    obj = obj.__wrapped__
                 return obj
         raise Unsupported(f"cannot resolve {qualname}")
 
@@ -251,8 +257,14 @@ class Engine(OpsMixin, ExprMixin, CallMixin, StmtMixin, BuiltinsMixin):
                 exits["return"] += 1
                 if ret is not None and ret.kind != "py":
                     result = self.coerce(result, ret)
+                if c.fresh_result:
+                    news = s.ghost.get("__new__", {}).get(ret.name, [])
+                    saved_flow, s.flow = s.flow, None
+                    self.emit(s, "fresh-result", z3.Or(*[result.t == r for r in news]) if news else z3.BoolVal(False),
+                              note="the returned object is allocated by this call")
+                    s.flow = saved_flow
                 if c.post is not None:
-                    amap = dict(env)
+                    amap = {**s.env, **env}     # clause parameters may also name locals alive at the exit
                     amap["result"] = result
                     if "yielded" in inspect.signature(c.post).parameters:
                         amap["yielded"] = s.ghost.get("__yielded__")
@@ -279,7 +291,11 @@ class Engine(OpsMixin, ExprMixin, CallMixin, StmtMixin, BuiltinsMixin):
                     for k, f in allowed:
                         ep = c.exc_post.get(k)
                         if ep is not None:
-                            self.emit(s, f"exc-post/{exc.cls.__name__}", self.truth(self.eval_spec_fn(s, ep, env, pre_state=pre_state)),
+                            amap = {**s.env, **env}
+                            for an, av in exc.attrs.items():
+                                if isinstance(av, Val):
+                                    amap["exc_" + an] = av
+                            self.emit(s, f"exc-post/{exc.cls.__name__}", self.truth(self.eval_spec_fn(s, ep, amap, pre_state=pre_state)),
                                       note="state relation at exceptional exit")
             else:
                 raise Unsupported(f"{qualname}: flow {flow[0]} at function end")
@@ -299,14 +315,19 @@ class Engine(OpsMixin, ExprMixin, CallMixin, StmtMixin, BuiltinsMixin):
     def frame_obligations(self, s, pre_state, c):
         """Every heap field the body wrote must be listed in the contract's frame (modifies), except on objects
         the function allocated itself."""
-        allowed = set(c.modifies)
+        allowed = set(m.split("@")[0] for m in c.modifies if "@" not in m)
+        targeted = {}
+        for m in c.modifies:
+            if "@" in m:
+                fld, par = m.split("@")
+                targeted.setdefault(fld, []).append(pre_state.env[par].t)
         news = s.ghost.get("__new__", {})
         for (cls, fld), arr in s.heap.items():
             arr0 = pre_state.heap.get((cls, fld))
             if arr0 is None or arr.eq(arr0) or f"{cls}.{fld}" in allowed:
                 continue
             o = z3.Const(fresh_name("frame_o"), self.reg.sort(self.reg.ty_of_class(cls)))
-            fresh_objs = [r for r in news.get(cls, [])]
+            fresh_objs = [r for r in news.get(cls, [])] + targeted.get(f"{cls}.{fld}", [])
             goal = z3.Or(*([o == r for r in fresh_objs] + [z3.Select(arr, o) == z3.Select(arr0, o)]))
             saved = s.flow
             s.flow = None
@@ -327,5 +348,11 @@ class Engine(OpsMixin, ExprMixin, CallMixin, StmtMixin, BuiltinsMixin):
         self.current_inputs = {k: v.t for k, v in env.items()}
         n0 = len(self.vcs)
         goal = self.truth(self.eval_spec_fn(st, lem.fn, env))
+        # hypotheses of a top-level implication become premises (so that premise selection applies)
+        while z3.is_implies(goal):
+            ant = goal.arg(0)
+            for c_ in (ant.children() if z3.is_and(ant) else [ant]):
+                st.pc.append(c_)
+            goal = goal.arg(1)
         self.emit(st, lem.name, goal, note="lemma over contracts/spec functions")
         return self.vcs[n0:]
